@@ -593,12 +593,15 @@ class MemProg(Module):
             out("w_dat_r", wp.dat_r)
             out("r_dat_r", rp.dat_r)
 
-    def info(self):
+    def info(self, with_rst=False):
         ios = set(self.inputs)
         inputs = list(self.inputs)
         menus = list(self.menus)
         for cd in self.cds:
             ios |= {cd.clk, cd.rst}
+            if with_rst:
+                inputs.append(cd.rst)
+                menus.append([0, 1])
         return dict(ios=ios, clocks=tuple(cd.name for cd in self.cds), clock_domains=list(self.cds), inputs=inputs, menus=menus,
                     observe=list(self.obs), memories=[self.mem])
 
@@ -627,10 +630,10 @@ def mem_variants(tier):
     return V
 
 
-def mem_program(name):
+def mem_program(name, with_rst=False):
     v = mem_variants("thorough")[name]
 
     def mk():
         m = MemProg(v)
-        return m, m.info()
+        return m, m.info(with_rst)
     return mk
